@@ -9,10 +9,15 @@
 
 //@fn id=trait_block_formatter file=code/formatter.rs name=format in="trait BlockFormatter" props=C01,C02,C12,C14
 //@ret r
+//@container-extra
+    /// the exact result as a function of the content bytes and the two seam positions
+    spec fn spec_format(&self, b: Seq<u8>, s: int, e: int) -> Seq<(int, int)>;
 //@requires
     start_byte_pos <= end_byte_pos <= content.spec_bytes().len(),
 //@ensures label=block_safe props=C01,C02,C14
     block_safe(content.spec_bytes(), start_byte_pos as int, end_byte_pos as int, r@),
+//@ensures label=block_is_spec props=C12
+    ranges_view(r@) == self.spec_format(content.spec_bytes(), start_byte_pos as int, end_byte_pos as int),
 //@end
 
 //@fn id=get_indent_len file=code/formatter/block_indent_remover.rs name=get_indent_len props=C01,C12
@@ -40,6 +45,8 @@
 //@item file=code/formatter/block_indent_remover.rs kind=struct name=BlockIndentRemover
 //@fn id=block_indent_remover file=code/formatter/block_indent_remover.rs name=format in="impl BlockFormatter for BlockIndentRemover" props=C01,C02,C12,C14
 //@ret r
+//@container-extra
+    open spec fn spec_format(&self, b: Seq<u8>, s: int, e: int) -> Seq<(int, int)> { block_spec(b, s, e) }
 //@ensures label=block_exact props=C12
     ranges_view(r@) == block_spec(content.spec_bytes(), start_byte_pos as int, end_byte_pos as int),
 //@loop 1
